@@ -1,22 +1,29 @@
 #!/bin/bash
 # seedregress.sh [id-glob] — re-runs every archived seeded change against the current checks and prints one line each:
-#   <id> <property> applies-on=<HEAD|base|no> check-rc=<0|1|2> (1 = caught)
-# A patch that no longer applies to HEAD is evaluated on the commit it was made against (meta.json "base"), where the
-# check may additionally report findings that were listed at that time.
+#   <id> <property> applies-on=<HEAD|base|no> check-rc=<0|1|2> <n> violation-groups  OK|REGRESSION
+# A patch that no longer applies to HEAD (or whose meta says manifests_on_head=false) is evaluated on the commit it
+# was made against (meta.json "base"), where the check may additionally report findings that were repaired later.
+# Expected result: rc=1, except for changes whose meta.caught_by_check starts with "no" (rc=0 expected).
 export GOFLAGS=-mod=mod GOPROXY=off GOSUMDB=off GOTOOLCHAIN=local
 for d in /verif/seeded/${1:-*}/; do
   id=$(basename $d)
   prop=$(python3 -c "import json;print(json.load(open('$d/meta.json'))['property'])")
   base=$(python3 -c "import json;print(json.load(open('$d/meta.json')).get('base',''))")
+  onhead=$(python3 -c "import json;print(json.load(open('$d/meta.json')).get('manifests_on_head',True))")
+  want=$(python3 -c "import json;print(0 if json.load(open('$d/meta.json'))['caught_by_check'].startswith('no') else 1)")
   W=/var/tmp/seedreg.$$.$id; O=$W.out
   where=HEAD
-  git -C /repo worktree add -q --detach $W HEAD 2>/dev/null || { echo "$id worktree failed"; continue; }
-  if ! ( cd $W && git apply $d/patch.diff 2>/dev/null || git apply --3way $d/patch.diff 2>/dev/null ); then
-    git -C /repo worktree remove --force $W >/dev/null 2>&1
-    if [ -n "$base" ] && git -C /repo worktree add -q --detach $W $base 2>/dev/null && ( cd $W && git apply $d/patch.diff 2>/dev/null ); then where=base:$base; else echo "$id $prop applies-on=no"; git -C /repo worktree remove --force $W >/dev/null 2>&1; continue; fi
+  applied=no
+  if [ "$onhead" = "True" ]; then
+    git -C /repo worktree add -q --detach $W HEAD 2>/dev/null || { echo "$id worktree failed"; continue; }
+    if ( cd $W && git apply $d/patch.diff 2>/dev/null || git apply --3way $d/patch.diff 2>/dev/null ); then applied=yes; else git -C /repo worktree remove --force $W >/dev/null 2>&1; fi
+  fi
+  if [ $applied = no ]; then
+    if [ -n "$base" ] && git -C /repo worktree add -q --detach $W $base 2>/dev/null && ( cd $W && git apply $d/patch.diff 2>/dev/null ); then where=base:$base; else echo "$id $prop applies-on=no REGRESSION"; git -C /repo worktree remove --force $W >/dev/null 2>&1; continue; fi
   fi
   mkdir -p $O
   ( cd /verif && VERIF_REPO=$W VERIF_OUTDIR=$O ./check $prop --tier quick >$O/check.txt 2>&1 ); rc=$?
-  echo "$id $prop applies-on=$where check-rc=$rc $(grep -c '^VIOLATION' $O/check.txt) violation-groups $(grep -m1 '^MACHINERY\|^BUILD' $O/check.txt | cut -c1-100)"
+  verdict=OK; [ $rc -ne $want ] && verdict=REGRESSION
+  echo "$id $prop applies-on=$where check-rc=$rc $(grep -c '^VIOLATION' $O/check.txt) violation-groups $verdict $(grep -m1 '^MACHINERY\|^BUILD' $O/check.txt | cut -c1-100)"
   git -C /repo worktree remove --force $W >/dev/null 2>&1; rm -rf $O
 done
